@@ -1,0 +1,5 @@
+//go:build !verif
+
+package worker
+
+func verifPoint(string) {}
